@@ -334,11 +334,12 @@ func instrumentFile(p *packages.Package, f *ast.File, fname string, doYield bool
 	if doYield {
 		ast.Inspect(f, func(n ast.Node) bool {
 			var body *ast.BlockStmt
+			isFunc := false
 			switch x := n.(type) {
 			case *ast.FuncDecl:
-				body = x.Body
+				body, isFunc = x.Body, true
 			case *ast.FuncLit:
-				body = x.Body
+				body, isFunc = x.Body, true
 			case *ast.ForStmt:
 				body = x.Body
 			case *ast.RangeStmt:
@@ -346,7 +347,12 @@ func instrumentFile(p *packages.Package, f *ast.File, fname string, doYield bool
 			}
 			if body != nil {
 				site := newYieldSite(body.Lbrace)
-				splices = append(splices, splice{off(body.Lbrace) + 1, off(body.Lbrace) + 1, fmt.Sprintf(" _simrt.Yield(%d);", site)})
+				hook := fmt.Sprintf(" _simrt.Yield(%d);", site)
+				if isFunc {
+					// function entry: tick + call-depth accounting (unbounded recursion is cut deterministically)
+					hook = fmt.Sprintf(" _simrt.Enter(%d); defer _simrt.Leave();", site)
+				}
+				splices = append(splices, splice{off(body.Lbrace) + 1, off(body.Lbrace) + 1, hook})
 			}
 			return true
 		})
